@@ -32,7 +32,6 @@ def run(ctx):
                  "front-ends attach to an I/O error / EOF equals what the iterator front-ends report as trailing DiscardedBytes)")
         check_final_reset(ctx, A, F, an, "R-C15-FINAL")
         check_no_swallow(ctx, F, body_of(F, ITER, "next"), ("_push_byte",))
-        check_no_swallow(ctx, F, F.bodies["transport::decode::decode"], ("push_byte",))
     except (AnchorMissing, Unsupported, KeyError) as e:
         ctx.violation("ANCHOR-MISSING", "frontends", ("", 0, ""), "%s: %s" % (type(e).__name__, e))
     ctx.assumptions = [ASSUMPTIONS[k] for k in ("A1", "A2", "A4", "A6")]
@@ -242,9 +241,69 @@ def check_decode(ctx, F, A):
     # observations per loop iteration (the loop is analysed to a fixpoint; hooks see every abstract iteration of the final round)
     obs = []
 
-    def on_res(ip_, frame, bb, t, callee, args, outs):
-        if frame.body is not b:
+    # protocol monitor in the abstract memory (survives the loop join, independent of how the loop is written):
+    #   0 reported / start, 1 decoder had nothing to report, 2 byte fetched, 3 decoder result waiting to be appended,
+    #   4 input exhausted, 5 finalize's report waiting to be appended, 6 finished
+    G = ("G", "c15-dec")
+    DEC_BAD = {1: "the next byte is fetched while a result of the decoder (Ok(Some) / Err) has not been appended: it is dropped",
+               2: "the decoder is fed without a freshly fetched byte",
+               3: "something is appended that is not a pending result of the decoder",
+               4: "finalize is called before the input is exhausted, or more than once"}
+
+    def dbad(st, code):
+        st.ghost["c15-bad"] = max(st.ghost.get("c15-bad", 0), code)
+
+    def gval(st):
+        v = st.mem.get(G)
+        return st.interval(v.lin) if isinstance(v, VInt) else (None, None)
+
+    def monitor(ip_, frame, bb, t, callee, args, outs):
+        k = short(callee_key(callee, frame.env))
+        is_src = callee.get("trait") == "std::iter::Iterator" and callee.get("method") == "next" and \
+            (callee.get("self_ty") or {}).get("k") in ("param", "alias", "other", "deep")
+        is_vecpush = k == "push" and "Vec" in callee_key(callee, frame.env)
+        if not (is_src or is_vecpush or k in ("push_byte", "finalize")):
             return
+        new = []
+        for (s2, rv) in outs:
+            if G not in s2.mem:
+                new.append((s2, rv))
+                continue
+            lo, hi = gval(s2)
+            if is_src:
+                if not (lo is not None and lo >= 0 and hi is not None and hi <= 1):
+                    dbad(s2, 1)
+                for s3, var, pay in split_enum(ip_, s2, rv, "item"):
+                    s3.mem[G] = cint(2 if var == 1 else 4, 8, False)
+                    new.append((s3, VEnum(rv.defn, Lin.const(var), {var: pay})))
+            elif k == "push_byte":
+                if (lo, hi) != (2, 2):
+                    dbad(s2, 2)
+                for s3, var, pay in split_enum(ip_, s2, rv, "push_byte result"):
+                    if var == 1:
+                        s3.mem[G] = cint(3, 8, False)
+                        new.append((s3, VEnum(rv.defn, Lin.const(1), {1: pay})))
+                        continue
+                    for s4, v2, p2 in split_enum(ip_, s3, pay[0], "push_byte payload"):
+                        s4.mem[G] = cint(3 if v2 == 1 else 1, 8, False)
+                        new.append((s4, VEnum(rv.defn, Lin.const(0), {0: (VEnum(pay[0].defn, Lin.const(v2), {v2: p2}),)})))
+            elif k == "finalize":
+                if (lo, hi) != (4, 4):
+                    dbad(s2, 4)
+                for s3, var, pay in split_enum(ip_, s2, rv, "finalize result"):
+                    s3.mem[G] = cint(5 if var == 1 else 6, 8, False)
+                    new.append((s3, VEnum(rv.defn, Lin.const(var), {var: pay})))
+            else:
+                if (lo, hi) == (3, 3):
+                    s2.mem[G] = cint(0, 8, False)
+                elif (lo, hi) == (5, 5):
+                    s2.mem[G] = cint(6, 8, False)
+                else:
+                    dbad(s2, 3)
+                new.append((s2, rv))
+        outs[:] = new
+
+    def on_res(ip_, frame, bb, t, callee, args, outs):
         k = short(callee_key(callee, frame.env))
         for (s2, rv) in outs:
             if k == "next":
@@ -263,16 +322,29 @@ def check_decode(ctx, F, A):
                 ip_.observe({"kind": "c15-vecpush", "val": args[1], "st": s2, "item": s2.ghost.get("c15-item"),
                              "pushed": s2.ghost.get("c15-push"), "tovec": s2.ghost.get("c15-tovec"), "final": s2.ghost.get("c15-final"),
                              "borrow": s2.ghost.get("c15-borrow")})
+    ip.on_call_result.append(monitor)
     ip.on_call_result.append(on_res)
     old_o, old_t = ip.opaque_fn, ip.join_threshold
     ip.opaque_fn = opaque_components(F)
     ip.join_threshold = 10 ** 9
     since = len(ip.log)
     try:
-        outs = A.run_fn(b)
+        st0 = ip.new_state()
+        st0.mem[G] = cint(0, 8, False)
+        outs = A.run_fn(b, st0=st0)
     finally:
         ip.on_call_result.remove(on_res)
+        ip.on_call_result.remove(monitor)
         ip.opaque_fn, ip.join_threshold = old_o, old_t
+    for (s1, rv, _args) in outs:
+        ctx.count("R-C15-DRIVER")
+        code = s1.ghost.get("c15-bad", 0)
+        g = s1.mem.get(G)
+        okm = not code and isinstance(g, VInt) and s1.const_of(g.lin) == 6
+        ctx.oblig(okm)
+        if not okm:
+            viol(ctx, b, "protocol|%s" % code, "decode(): " + (DEC_BAD.get(code) or "the function returns before finalize's report was handled "
+                                                           "(monitor state %s)" % (s1.describe(g.lin) if isinstance(g, VInt) else None)))
     pushes = A.observations("c15-vecpush", since)
     kinds = set()
     for o in pushes:
